@@ -178,7 +178,10 @@ pub fn run(args: &Args) {
                 .env("LANG", ["C", "de_DE.UTF-8", "ja_JP.UTF-8"][k % 3]).env("LC_ALL", ["C", "de_DE.UTF-8", "ja_JP.UTF-8"][k % 3])
                 .env("TMPDIR", { let d = std::env::temp_dir().join(format!("rpm_verif_c11_tmp{k}")); let _ = std::fs::create_dir_all(&d); d })
                 .env("RPM_VERIF_PADDING", "x".repeat(1 + 997 * k))
+                // (the source date is what the configuration says, whatever a build environment exports)
+                .env("SOURCE_DATE_EPOCH", ["", "1700000000", "1500000000"][k % 3])
                 .current_dir(if k % 2 == 0 { "/" } else { "/tmp" });
+            if k % 3 == 0 { cmd.env_remove("SOURCE_DATE_EPOCH"); }
             match cmd.output() {
                 Ok(o) if o.status.success() => {
                     let line = String::from_utf8_lossy(&o.stdout);
